@@ -11,7 +11,7 @@ use std::rc::Rc;
 pub static ENGINE: Engine = Engine {
     prop: "C19",
     level: "model_checking",
-    rule: "explicit-state BFS over ALL pairs (A,B) of subsets of the b-bit universe (b=2: 256 states, b=3: 65536); every state is rebuilt on real BDDSets in a fresh environment by replaying its BFS path from the empty pair; from every state every operation insert(X,e), union/intersect/complement(X,Y) with (X,Y) in {(A,B),(B,A),(A,A),(B,B)}, empty, universe and the query contains(X,e) is executed on the real sets and then membership of EVERY element of BOTH sets is asked forwards and backwards and compared with the reference masks; plus every operation sequence up to depth 4 (5) for b=2 and 3 (4) for b=3 on one long-lived pair without cloning; wider universes (b = 4..8, 16, 32, 64): every sequence of <= 2 (3) operations with membership observed on a pool of six elements (0, 1, 2^(b-1), 2^b-1, ...) against a reference that tracks the pool and 'everything else'. distinct = distinct (state, operation) pairs executed + distinct long-lived sequences",
+    rule: "explicit-state BFS over ALL pairs (A,B) of subsets of the b-bit universe (b=2: 256 states, b=3: 65536); every state is rebuilt on real BDDSets in a fresh environment by replaying its BFS path from the empty pair; from every state every operation insert(X,e), union/intersect/complement(X,Y) with (X,Y) in {(A,B),(B,A),(A,A),(B,B)}, empty, universe and the query contains(X,e) is executed on the real sets and then membership of EVERY element of BOTH sets is asked forwards and backwards and compared with the reference masks; plus every operation sequence up to depth 4 (5) for b=2 and 3 (4) for b=3 on one long-lived pair without cloning; long insert/query patterns in which one 4-bit set sees all 16 elements; wider universes (b = 4..8, 16, 32, 64): every sequence of <= 2 (3) operations with membership observed on a pool of six elements (0, 1, 2^(b-1), 2^b-1, ...) against a reference that tracks the pool and 'everything else'. distinct = distinct (state, operation) pairs executed + distinct long-lived sequences",
     assumptions: &["reference = bit masks with the usual set operations; complement(X,Y) is set difference X \\ Y as the property states", "bounds: universe of 2^b elements with b <= 3, two sets, sequences on a long-lived pair up to depth 4"],
     max_shards: 64,
     run,
@@ -436,7 +436,44 @@ fn wide_sweep(ctx: &mut Ctx) {
     }
 }
 
+/// one set sees all 16 elements of a 4-bit universe: long insert / query patterns
+fn long_histories_b4(ctx: &mut Ctx) {
+    let mut idx = 0u64;
+    for s in 0..16u8 {
+        for t in [1u8, 3, 5, 7] {
+            let walk: Vec<u8> = (0..16u8).map(|i| (s + t * i) % 16).collect();
+            let mut patterns: Vec<Vec<Op>> = vec![];
+            // insert one element, query all others, query it again
+            let mut p: Vec<Op> = vec![Op::Insert(0, s)];
+            p.extend(walk[1..].iter().map(|e| Op::Contains(0, *e)));
+            p.push(Op::Contains(0, s));
+            patterns.push(p);
+            // insert 12 distinct elements, then query all 16
+            let mut p: Vec<Op> = walk[..12].iter().map(|e| Op::Insert(0, *e)).collect();
+            p.extend(walk.iter().map(|e| Op::Contains(0, *e)));
+            patterns.push(p);
+            // alternate inserts into A and B, union, then queries on both
+            let mut p: Vec<Op> = walk[..10].iter().enumerate().map(|(i, e)| Op::Insert((i % 2) as u8, *e)).collect();
+            p.push(Op::Union(0, 1));
+            p.push(Op::Complement(1, 0));
+            p.extend(walk.iter().flat_map(|e| [Op::Contains(0, *e), Op::Contains(1, *e)]));
+            patterns.push(p);
+            for p in patterns {
+                for every in [false, true] {
+                    idx += 1;
+                    if ctx.mine(idx) {
+                        run_history(ctx, 4, &p, every);
+                        ctx.count("long_histories_b4", 1);
+                        ctx.distinct(&(4u8, &p, every));
+                    }
+                }
+            }
+        }
+    }
+}
+
 fn run(ctx: &mut Ctx) {
+    long_histories_b4(ctx);
     bfs(ctx, 2);
     bfs(ctx, 3);
     long_lived(ctx, 2, if ctx.thorough() { 5 } else { 4 });
